@@ -74,6 +74,7 @@ func moreFacts(b *strings.Builder, root *pkgFiles, repo string) {
 	lockFacts(b, repo)
 	idpFacts(b, root)
 	spFacts(b, root)
+	templateDataFacts(b, repo)
 }
 
 // dsigConstants resolves the string constants of the goxmldsig module the repository builds against.
